@@ -1,9 +1,11 @@
 use crate::engine::Property;
 
+pub mod c01;
 pub mod c02;
 
 pub fn property(id: &str) -> Option<Property> {
     match id {
+        "C01" => Some(c01::property()),
         "C02" => Some(c02::property()),
         _ => None,
     }
